@@ -99,6 +99,12 @@ pub fn run(ctx: &Ctx, cfg: &DiffCfg<'_>, patterns: &[Node], texts: &[String]) ->
             Route::Unknown => "route:unknown",
         });
         let statically_known = (cfg.static_known)(p).filter(|id| ctx.known.listed(cfg.prop, id));
+        // hook-free fallback for finding FJ (DESIGN.md §8): without the aux-stack pairing signature
+        // the class is static - a conditional somewhere below / next to a committing region
+        let fj_static = !HOOKS
+            && fj_listed
+            && p.has_cond()
+            && p.any(&|n| matches!(n, Node::Atomic(_) | Node::Look(..) | Node::Repeat(_, _, _, crate::ast::Mode::Poss)) || matches!(n, Node::CondExpr(c, ..) if c.has_cond()));
         let _ = hook_take();
         let (mut any_match, mut any_nomatch, mut any_bt, mut any_del, mut any_grp_some, mut any_grp_none) = (false, false, false, false, false, false);
         let (mut cond_true, mut cond_false) = (false, false);
@@ -121,7 +127,7 @@ pub fn run(ctx: &Ctx, cfg: &DiffCfg<'_>, patterns: &[Node], texts: &[String]) ->
                     acc.violate(v);
                 }
                 let attributed = |acc: &mut Acc, what: &str| -> bool {
-                    if h.aux_mismatch > 0 && fj_listed {
+                    if (h.aux_mismatch > 0 || fj_static) && fj_listed {
                         acc.known_hit("FJ", || format!("{} on {:?}@{}: {}", s, t, from, what));
                         return true;
                     }
@@ -221,7 +227,7 @@ pub fn run(ctx: &Ctx, cfg: &DiffCfg<'_>, patterns: &[Node], texts: &[String]) ->
         }
         let vm = rt.is_vm();
         let nontrivial = match cfg.compare {
-            Compare::Span => vm && any_del && any_bt && any_match && any_nomatch,
+            Compare::Span => vm && (any_del && any_bt || !HOOKS) && any_match && any_nomatch,
             Compare::Groups => ng >= 1 && any_grp_some && any_grp_none,
             Compare::All => any_match && any_nomatch && (cond_true && cond_false || !p.has_cond()),
         };
